@@ -333,6 +333,24 @@ func TestSim(t *testing.T) {
 	}
 }
 
+// progress: the index of the run in progress is kept in a file, so that the driver can tell which
+// run killed the process when netpoll crashes it (fatal errors cannot be recovered).
+var progressFile *os.File
+
+func noteRun(run int) {
+	if progressFile == nil {
+		if p := os.Getenv("SIM_PROGRESS"); p != "" {
+			progressFile, _ = os.OpenFile(p, os.O_CREATE|os.O_WRONLY, 0o644)
+		}
+		if progressFile == nil {
+			return
+		}
+	}
+	var b [16]byte
+	copy(b[:], fmt.Sprintf("%-15d\n", run))
+	progressFile.WriteAt(b[:], 0)
+}
+
 func doRuns(t *testing.T, req *Request, resp *Response, start time.Time) {
 	if req.Stride <= 0 {
 		req.Stride = 1
@@ -349,6 +367,7 @@ func doRuns(t *testing.T, req *Request, resp *Response, start time.Time) {
 			break
 		}
 		run := req.Start + i*req.Stride
+		noteRun(run)
 		cfg, pname := policyFor(req.Seed, run)
 		cfg.SeedS = mix(req.Seed, sh, uint64(run), 1)
 		cfg.SeedW = mix(req.Seed, sh, uint64(run), 2)
